@@ -453,6 +453,19 @@ def main():
         if mm:
             mismatches.append(mm)
         fails += nf
+    # additional harnesses that also carry oracles of this property (e.g. the whole-node fuzz harness carries the C04 monitor)
+    for ex in spec.get('extra', []):
+        sub = dict(spec, **ex)
+        sub.setdefault('oracle_prefixes', spec.get('oracle_prefixes', [pid + ':']))
+        for v in sub.get('variants', ['']):
+            binp, err = build_harness(pid, sub, v)
+            if not binp:
+                problems.append('harness build failed (%s %s): %s' % (sub['harness'], v or 'default', err[-800:]))
+                continue
+            mm, nf = one_pass(pid, sub, 'x_' + sub['engine'] + ('_' + v if v else ''), binp, seed, tier, findings, res)
+            if mm:
+                mismatches.append(mm)
+            fails += nf
     # escalate the failing-input search when proof or correspondence broke and no concrete input is known yet
     if (mismatches or problems) and not fails and bins:
         n_extra = 6 if tier == 'quick' else 10
